@@ -23,7 +23,7 @@ RULE = ("each run: 2-4 generated messages (70% with encrypted parameter areas of
         "(message set, schedule) digests")
 REAL = common.REAL_DECODER + ["tpmstream.spec.commands.params_common (cached type synthesis)", "tpmstream.common.object"]
 ASSUMPTIONS = ["all tasks live in one interpreter: module globals are shared simply because they are; generators are the pre-emption points"]
-TIERS = {"quick": {"runs": 10000, "budget": 75}, "thorough": {"runs": 300000, "budget": 780}}
+TIERS = {"quick": {"runs": 10000, "budget": 150}, "thorough": {"runs": 300000, "budget": 780}}
 
 
 def enc_message(rng, g, side=None):
